@@ -168,3 +168,43 @@ def action_config_reads(ctx: Ctx):
             lk = literal_key(ctx, fi, key)
             out.append((fi, lk if lk is not None else "<dynamic:%s>" % norm(key), n))
     return out
+
+
+def fmt_parts(e: ast.expr):
+    """('template with {} holes', [argument texts]) for `'a %s b' % x`, `'..' % (x, y)` and f-strings; else None."""
+    if isinstance(e, ast.BinOp) and isinstance(e.op, ast.Mod) and isinstance(e.left, ast.Constant) and isinstance(e.left.value, str):
+        args = list(e.right.elts) if isinstance(e.right, ast.Tuple) else [e.right]
+        tmpl = e.left.value.replace("%s", "{}").replace("%r", "{!r}").replace("%d", "{}")
+        return tmpl, [norm(a) for a in args]
+    if isinstance(e, ast.JoinedStr):
+        tmpl, args = "", []
+        for v in e.values:
+            if isinstance(v, ast.FormattedValue):
+                tmpl += "{!r}" if v.conversion == 114 else "{}"
+                args.append(norm(v.value))
+            elif isinstance(v, ast.Constant):
+                tmpl += str(v.value)
+        return tmpl, args
+    if isinstance(e, ast.Constant) and isinstance(e.value, str):
+        return e.value, []
+    return None
+
+
+def expand_through(ctx: Ctx, expr: ast.expr, helper: FuncInfo, caller: FuncInfo, call: ast.Call):
+    """Expansions of `expr` (a node of `helper`) with the helper's parameters replaced by what `caller` passes at `call`."""
+    if helper is caller or call is None:
+        return ctx.expand.expand(expr, helper)
+    bound = ctx.types.bind_args(helper, call)
+    out = []
+    for x in ctx.expand.expand(expr, helper):
+        done = False
+        for pname, arg in bound.items():
+            tok = "@" + pname
+            if x == tok or x.startswith(tok + ".") or x.startswith(tok + "[") or (tok + ".") in x or (tok + ")") in x or (tok + ",") in x:
+                for y in ctx.expand.expand(arg, caller):
+                    out.append(x.replace(tok, y))
+                done = True
+                break
+        if not done:
+            out.append(x)
+    return out
